@@ -15,6 +15,7 @@ package main
 
 import (
 	"fmt"
+	"math"
 	"math/bits"
 	"strings"
 
@@ -96,7 +97,11 @@ func checkSel(c *ev.Case, prefix string, ctx func() string, items, sel []item) (
 			return s, false
 		}
 		s.mask |= 1 << uint(it.ID)
-		s.w += it.W
+		if it.W > 0 && s.w > math.MaxInt-it.W {
+			s.w = math.MaxInt // saturate: "unliftable" weights must not wrap around
+		} else {
+			s.w += it.W
+		}
 		s.v += it.V
 	}
 	return s, true
